@@ -1,10 +1,68 @@
-(* C02 — optimisation levels 1 and 2 never change what a program does.  (Theorems under construction: the
-   renumbering simulation and the pre-execution soundness are stated in Proofs/OptSpec.v.) *)
+(* C02 — optimisation levels 1 and 2 never change what a program does.  Property theorems only.
+   Model: coq/Model/Opt.v (liveness scan, dense renumbering with a shared garbage slot, speculative
+   execution with guards / 100-jump budget / roll-back, capture of output, the run.rs wiring) over
+   coq/Model/Exec.v.  [beh] of a run = (how it ended, stdout text, stderr text).  [run_level fx fuel code lv input]
+   is what `hyeong run -O<lv>` does within a budget of [fuel] executed commands.
+   Premise [kinds_ok]: command kinds are 0..5 — true of everything the parser produces (C02_parser_kinds). *)
 From Coq Require Import List NArith Bool.
 Import ListNotations.
-From HV Require Import Model.Parse Model.Exec Model.Opt.
+From HV Require Import Model.Parse Model.Exec Model.Opt Proofs.OptSpec Proofs.OptAll.
+Open Scope N_scope.
 
-Theorem C02_level0_is_plain_run : forall fx fuel code input,
-  run_level fx fuel code 0%N input = run_inc fuel [] (map xcode_of_ucode code) (state0 SUnopt input).
-Proof. reflexivity. Qed.
-Print Assumptions C02_level0_is_plain_run.
+(* level 1 runs in lockstep with the unoptimised run: same behaviour for EVERY step budget (terminating or not) *)
+Theorem C02_level1 : forall fuel code input, kinds_ok code ->
+  beh (run_level all_fixed fuel code 1 input) = beh (run_level all_fixed fuel code 0 input).
+Proof. exact level1_wt_t. Qed.
+Print Assumptions C02_level1.
+
+(* level 2: the pre-executed prefix costs k steps; for every budget f of the optimised run, the unoptimised run with
+   budget k+f behaves the same.  If optimisation stops with an encoding error, so does the unoptimised run (same error). *)
+Theorem C02_level2 : forall code input, kinds_ok code ->
+  match optimize_prog all_fixed code 2 input with
+  | OptOk r => exists k, forall f, beh (run_level all_fixed (k + f) code 0 input) = beh (run_level all_fixed f code 2 input)
+  | OptErr e => exists f s', run_level all_fixed f code 0 input = FErr e s' /\ exists n, e = EEnc n
+  | OptStuck => False
+  end.
+Proof. exact level2_wt_t. Qed.
+Print Assumptions C02_level2.
+
+(* non-terminating programs: a smaller budget only sees a prefix of the output, so the outputs of the optimised and
+   unoptimised runs are prefix-compatible *)
+Theorem C02_output_grows_with_budget : forall f f' done todo s, (f <= f')%nat ->
+  match run_inc f done todo s with
+  | FFuel t _ => out_prefix (rev (outb t)) (rev (outb (final_state (run_inc f' done todo s)))) /\
+                 out_prefix (rev (errb t)) (rev (errb (final_state (run_inc f' done todo s))))
+  | x => run_inc f' done todo s = x
+  end.
+Proof. exact run_mono_t. Qed.
+Print Assumptions C02_output_grows_with_budget.
+
+(* the renumbering keeps every selectable stack in a private slot (the obligation on the liveness pass) *)
+Theorem C02_renumbering_private : forall code m mx, renum_map all_fixed code = (m, mx) ->
+  (forall i, selectable code i -> renum m mx i < mx /\ (i <= 3 -> renum m mx i = i)) /\
+  (forall i j, selectable code i -> renum m mx i = renum m mx j -> i = j) /\
+  (forall j, renum m mx j <= mx) /\ 4 <= mx.
+Proof. exact renum_private_t. Qed.
+Print Assumptions C02_renumbering_private.
+
+(* a speculative step that completes is a real step that read nothing *)
+Theorem C02_speculation_sound : forall c pc s pc' j s',
+  oexecute_one all_fixed c pc s = ROk (pc', j) s' -> execute_one c pc s = ROk pc' s' /\ inp s' = inp s.
+Proof. exact ostep_sound_t. Qed.
+Print Assumptions C02_speculation_sound.
+
+Theorem C02_parser_kinds : forall text, kinds_ok (parse text).
+Proof. exact parse_kinds_ok. Qed.
+Print Assumptions C02_parser_kinds.
+
+(* the pinned optimiser violated the property; witnesses replayed on the model with the pinned flags:
+   D7 (level 1, shared slot), D5 (level 2, operand order), D6 (level 2, output kept and repeated) *)
+Definition src_d7 : list N := [54805;46;9829;32;54637;46;32;54805;46;32;54637;46;46;46;46;46;32;54805;46;46;46;32;55121;46;46;46;46;32;54805;46;63;63;9829;33].
+Definition src_d6 : list N := [55121;46;33;9829].
+Theorem C02_pinned_refuted :
+  beh (run_level pinned 1000 (parse src_d7) 1 []) <> beh (run_level pinned 1000 (parse src_d7) 0 []) /\
+  beh (run_level all_fixed 1000 (parse src_d7) 1 []) = beh (run_level all_fixed 1000 (parse src_d7) 0 []) /\
+  beh (run_level pinned 1000 (parse src_d6) 2 []) <> beh (run_level pinned 1000 (parse src_d6) 0 []) /\
+  beh (run_level all_fixed 1000 (parse src_d6) 2 []) = beh (run_level all_fixed 1000 (parse src_d6) 0 []).
+Proof. vm_compute. repeat split; try reflexivity; discriminate. Qed.
+Print Assumptions C02_pinned_refuted.
